@@ -14,9 +14,10 @@ for name in $names; do
       *utils.py) props="$props C16 C06";;
       *pv_to_tel.py) props="$props C16";;
       *events.py) props="$props C04";;
-      *data_holders/base.py) props="$props C11";;
+      *data_holders/base.py) props="$props C11 C10";;
       *pv_event_simulator.py|*otel_to_pv/otel_to_pv.py|*pv_to_puml/pv_to_puml.py) props="$props C14";;
       *sql_dataholder.py) props="$props C09 C10 C12";;
+      *ingest_otel_data.py) props="$props C10";;
     esac
   done
   props=$(echo $props | tr ' ' '\n' | sort -u | tr '\n' ' ')
